@@ -41,6 +41,31 @@ def canon(v):
     return type(v).__name__ + ':' + repr(v)
 
 
+def as_collection(kind, items):
+    """The same items, in order, as another kind of (re-)iterable collection."""
+    if kind == 'tuple':
+        return tuple(items)
+    if kind == 'frozenset':
+        return frozenset(items)
+    if kind == 'dict':
+        return dict((a, i) for i, a in enumerate(items))
+    if kind == 'dict_keys':
+        return dict((a, i) for i, a in enumerate(items)).keys()
+    if kind == 'dict_values':
+        return dict((i, a) for i, a in enumerate(items)).values()
+    if kind == 'iterable':
+        class Registry(object):
+            def __iter__(self):
+                return iter(list(items))
+        return Registry()
+    if kind == 'getitem':
+        class OldStyleSequence(object):
+            def __getitem__(self, i):
+                return list(items)[i]
+        return OldStyleSequence()
+    raise ValueError(kind)
+
+
 class Unencodable(object):
     """An object the serializer cannot encode (its state cannot be obtained)."""
 
@@ -518,6 +543,8 @@ class Built(object):
             if fb == 'fn' or (isinstance(fb, tuple) and fb[0] == 'fn'):
                 lst = list(fb[1]) if isinstance(fb, tuple) else []
                 kw['fallback_aliases'] = lambda *a, **k: list(lst)
+            elif isinstance(fb, tuple) and fb[0] == 'as':
+                kw['fallback_aliases'] = as_collection(fb[1], list(fb[2]))      # the aliases in some other iterable than a list
             else:
                 kw['fallback_aliases'] = list(fb)
         if d.get('run_original'):
@@ -1018,6 +1045,11 @@ class Built(object):
                 v = getattr(self.inst, d['name'])(*args, **kwargs)
         except BaseException as ex:  # noqa
             ev['exc'] = ex
+            # where the exception comes from, as the caller's error reporting would show it: the innermost frame of its traceback
+            tb = ex.__traceback__
+            while tb is not None and tb.tb_next is not None:
+                tb = tb.tb_next
+            ev['exc_origin'] = None if tb is None else (tb.tb_frame.f_code.co_filename.rsplit('/', 1)[-1], tb.tb_frame.f_code.co_name)
             try:
                 ev['exc_state'] = (repr(getattr(ex, 'args', None)), repr(sorted((k, repr(v)) for k, v in vars(ex).items())))
             except Exception:
